@@ -38,7 +38,7 @@ TRUSTED = {
            '(same tokens, captures prefixed by `self.`); that `collect()` calls `next` until None and keeps the items in order is std behaviour (A4)',
     'A16': 'A16 IEEE-754 binary64 is exact on small integers (used only for C05\'s "the slow path does what the shortcut does" under first-fit): for usize a, b with a + b < 2^53, '
            'u2f(a) + u2f(b) == u2f(a + b); the conversion usize -> f64 is monotone (a <= b implies not u2f(a) > u2f(b)); u2f(0) == 0.0; and the target is 64-bit (every integer below '
-           '2^53 is a usize). True of round-to-nearest doubles; stated as axioms in U17 because Verus has no float theory',
+           '2^53 is a usize). Stated as axioms in U17 because Verus has no float theory; DISCHARGED bit-precisely for every pair of usize values by Kani harness K3 (loop-free, full domain; the conversion is taken from the real Fragment accessor Word::width()). What stays assumed is only that Verus\' uninterpreted u2f / fadd / fgt denote the machine operations K3 checks',
     'R17': 'R17 RefCell<Vec<usize>> is verified as a plain Vec behind &mut self (LineNumbers): every borrow()/borrow_mut() is a temporary that dies within its own '
            'statement and none overlaps another or the recursive call, so the dynamic borrow checks cannot fail',
     'R15': 'R15 generic parameters are verified at one instance: Opt = Options<\'a> (Into is the identity there), I = Vec<Word<\'a>>',
@@ -49,7 +49,10 @@ K1 = {'name': 'K1.default', 'file': 'k1_ch_width.rs', 'inject': 'src/core.rs', '
 K1MIN = dict(K1, name='K1.no-default-features', features='min')
 K2 = {'name': 'K2.first_fit_n3', 'file': 'k2_first_fit.rs', 'inject': 'src/wrap_algorithms.rs', 'features': 'default', 'quick': False, 'timeout': 1800,
       'harnesses': [{'name': 'k2_first_fit_partition_and_greedy'}], 'bounded': '3 fragments, quarter-integer widths < 4, whitespace/penalty < 2, two line widths < 8'}
-KANI = {'K1.default': K1, 'K1.no-default-features': K1MIN, 'K2.first_fit_n3': K2}
+K3 = {'name': 'K3.f64_exact', 'file': 'k3_f64_exact.rs', 'inject': 'src/core.rs', 'features': 'default', 'quick': True, 'timeout': 1200,
+      'harnesses': [{'name': 'k3_f64_small_int_add'}, {'name': 'k3_f64_conv_monotone'}, {'name': 'k3_f64_zero_and_target'}, {'name': 'k3_probe_must_fail'}],
+      'scope': 'complete: loop-free harnesses over the full domain of `usize` (bit-precise IEEE-754 binary64 in CBMC)'}
+KANI = {'K1.default': K1, 'K1.no-default-features': K1MIN, 'K2.first_fit_n3': K2, 'K3.f64_exact': K3}
 
 PROPS = {
     'C01': {
@@ -95,14 +98,14 @@ PROPS = {
                        'UAX #14 tables), unfill/refill and the thin public wrappers are covered by bounded exhaustive execution only.',
     },
     'C05': {
-        'units': ['U3', 'U11', 'U12', 'U17', 'U16', 'U14', 'U6'], 'level': 'other', 'kani': [K1, K1MIN], 'trusted': ['A2', 'A3', 'A4', 'A8', 'A9', 'A12', 'A16', 'R15', 'R16'],
+        'units': ['U3', 'U11', 'U12', 'U17', 'U16', 'U14', 'U6'], 'level': 'other', 'kani': [K1, K1MIN, K3], 'trusted': ['A2', 'A3', 'A4', 'A8', 'A9', 'A12', 'A16', 'R15', 'R16'],
         'proved_part': 'Verus + Kani: display_width(t) <= t.len() for every text — the soundness lemma of the byte-length shortcut (U3, K1). U11: when wrap_single_line takes the shortcut it '
                        'appends exactly one line, indent-free, borrowed, equal to the paragraph with trailing spaces removed; for a text without the line ending that is wrap\'s whole result. '
                        'U11 again, for first-fit, the built-in splitters and widths up to 2^53: wrap_single_line_slow_path, ENTERED UNDER THE SHORTCUT\'S CONDITION (line.len() < width, no '
                        'indent on this line), appends exactly one borrowed line, the paragraph without the spaces after its last word — i.e. taking or not taking the shortcut gives the same '
                        'line. The chain: cached widths <= byte lengths (U3), so every word still fits the first line; built-in splitters cut directly after a hyphen and add no penalty (U16, '
                        'U14), break_words adds none (U6); first-fit keeps words that all fit the first line on one line (U17 over U1\'s greedy rule, with A16: exact integer arithmetic of '
-                       'doubles below 2^53). U12: fill\'s shortcut returns exactly wrap\'s single line, so fill == wrap\'s lines joined on both sides of the shortcut.',
+                       'doubles below 2^53, which Kani K3 proves for all usize operands). U12: fill\'s shortcut returns exactly wrap\'s single line, so fill == wrap\'s lines joined on both sides of the shortcut.',
         'bounded_part': 'BEC: the first sentence (a paragraph whose display width fits is returned as one line) for every separator, splitter and algorithm — it needs sums of display widths, '
                         'which Verus cannot do over uninterpreted floats, and for optimal-fit the optimality of one line; wrap_single_line == wrap_single_line_slow_path and fill == '
                         'fill_slow_path (upstream cfg(fuzzing) entry points) for every text in scope and widths on both sides of the shortcut condition, all option combinations.',
